@@ -250,6 +250,7 @@ class World:
         self.alt_path = None
         self.t0 = int(time.time())
         self.touched = {}   # hex id -> time of the harness's last add_object() call for it (must count as a fresh write)
+        self.touch_fresh = {}   # hex id -> did that call leave a loose file with a fresh mtime?
 
     # -- objects
     def n(self, hexid: str) -> int:
@@ -683,9 +684,20 @@ def build_from_spec(ctx, w: World, spec):
         w.refs[ref.encode()] = hx_[n]
         repo.refs[ref.encode()] = hx_[n].encode()
     repo.close()
+    w.sha_by_name = hx_
     w.stored = {hx_[n] for pk in spec.get("packs", []) for n in pk["objs"]} | {hx_[n] for n in spec.get("loose", {})}
     w.write_head()
     return ["spec"]
+
+
+def _touch(w: World, repo, h):
+    """add_object() of an object the repository may already have: must leave a copy with a fresh mtime"""
+    repo.object_store.add_object(w.sha[h])
+    w.touched[h] = time.time()
+    try:
+        w.touch_fresh[h] = time.time() - os.stat(w.loose_path(h)).st_mtime < 60
+    except FileNotFoundError:
+        w.touch_fresh[h] = False
 
 
 def logical_case(ctx, idx, spec=None, stream="logical"):
@@ -703,6 +715,9 @@ def logical_case(ctx, idx, spec=None, stream="logical"):
     lines, pending = [], []
     try:
         for si, op in enumerate(ops):
+            if op["op"] == "touch":
+                _touch(w, repo, w.sha_by_name[op["obj"]])
+                continue
             if spec is None and si and rng.random() < 0.25:
                 repo.close()
                 mutate_refs(w, rng)
@@ -717,8 +732,7 @@ def logical_case(ctx, idx, spec=None, stream="logical"):
                 stale = sorted(h for h in lo_now if h not in cl and h in w.sha)   # unreachable loose: candidates for pruning
                 pool = stale if (stale and rng.random() < 0.6) else sorted(w.stored)
                 for h in rng.sample(pool, min(2, len(pool))):
-                    repo.object_store.add_object(w.sha[h])
-                    w.touched[h] = time.time()
+                    _touch(w, repo, h)
             st = repo.object_store
             order = [os.path.basename(p._basename) for p in st.packs]   # get_object_mtime's pack order
             loose0, packs0 = observe(w.objdir())
@@ -789,10 +803,15 @@ def logical_case(ctx, idx, spec=None, stream="logical"):
                     continue
                 age_y, age_o = t_before - youngest, t_before - oldest
                 if age_y >= gv - 5 and h in w.touched and t_before - w.touched[h] < gv - 5:
+                    # fresh right after add_object, stale now: an intermediate packing step dropped the fresh loose copy
+                    # in favour of an existing old pack with the same content
+                    cls = "fresh-loose-copy-dropped-for-existing-old-pack" if w.touch_fresh.get(h) else None
                     ctx.oracle_fail(stream, dict(case, object=h, ages=[int(t_before - t) for t in copies], grace=gv),
                                     f"unreachable object {h} disappeared although add_object() re-added it "
-                                    f"{int(t_before - w.touched[h])} s ago (its mtime was not refreshed; grace period {gv} s)",
-                                    None)
+                                    f"{int(t_before - w.touched[h])} s ago (grace period {gv} s): "
+                                    + ("the fresh loose copy was dropped by an intermediate pack_loose/repack whose pack already "
+                                       "existed with an old mtime" if w.touch_fresh.get(h) else "add_object() did not refresh the mtime"),
+                                    cls)
                 elif age_y < gv - 5:
                     cls = "pruned-object-has-younger-copy" if (age_o >= gv and len(copies) >= 2) else None
                     ctx.oracle_fail(stream, dict(case, object=h, ages=[int(t_before - t) for t in copies], grace=gv),
